@@ -40,8 +40,8 @@ func (Prop) Plan(tier string) []lib.Workload {
 		}
 	}
 	return []lib.Workload{
-		{Name: "keys", Cases: 320, MinNontrivial: 120},
-		{Name: "trees", Cases: 128, MinNontrivial: 32},
+		{Name: "keys", Cases: 256, MinNontrivial: 100},
+		{Name: "trees", Cases: 96, MinNontrivial: 24},
 		{Name: "nokey", Cases: 32, MinNontrivial: 16},
 	}
 }
